@@ -7,7 +7,8 @@
 (*                                                                         *)
 (* Processes (each action is one atomic step of the real system):          *)
 (*   Child   writes the stream in chunks (any chunking, mid-line splits,   *)
-(*           a last line without newline), then exits with a status        *)
+(*           a last line without newline), possibly closes its standard    *)
+(*           error while it keeps running, then exits with a status        *)
 (*   Waiter  the helper thread: notices the exit, stores the status, then  *)
 (*           closes the tool's own write end of the pipe                   *)
 (*   Reader  moves bytes from the pipe into its buffer, delivers a line at *)
@@ -46,6 +47,11 @@ ChildWrite == /\ child = "running" /\ written < Len(Stream)
                     /\ pipe' = pipe \o SubSeq(Stream, written + 1, written + k)
                     /\ written' = written + k
               /\ UNCHANGED <<child, status, childEnd, toolEnd, stored, waiter, rbuf, delivered, readerDone, joined, ret>>
+\* a program may close (or redirect) its standard error and keep running: the pipe then has no writer but the tool itself,
+\* and the program's exit - not the end of its output - is what ends the session
+ChildCloseErr == /\ child = "running" /\ written = Len(Stream) /\ childEnd
+                 /\ childEnd' = FALSE
+                 /\ UNCHANGED <<written, pipe, child, status, toolEnd, stored, waiter, rbuf, delivered, readerDone, joined, ret>>
 ChildExit  == /\ child = "running" /\ written = Len(Stream)
               /\ child' = "exited" /\ childEnd' = FALSE
               /\ UNCHANGED <<written, pipe, status, toolEnd, stored, waiter, rbuf, delivered, readerDone, joined, ret>>
@@ -74,7 +80,7 @@ MainJoin   == /\ readerDone /\ ~joined /\ waiter = "closed" /\ joined' = TRUE
 MainReturn == /\ joined /\ ret = NoStatus /\ ret' = stored
               /\ UNCHANGED <<written, pipe, child, status, childEnd, toolEnd, stored, waiter, rbuf, delivered, readerDone, joined>>
 
-Next == ChildWrite \/ ChildExit \/ WaiterNotice \/ WaiterStore \/ WaiterClose \/ ReaderRead \/ ReaderEof \/ MainJoin \/ MainReturn
+Next == ChildWrite \/ ChildCloseErr \/ ChildExit \/ WaiterNotice \/ WaiterStore \/ WaiterClose \/ ReaderRead \/ ReaderEof \/ MainJoin \/ MainReturn
 Spec == Init /\ [][Next]_vars /\ WF_vars(Next)
 
 -----------------------------------------------------------------------------
